@@ -2,6 +2,7 @@
 """seed_import.py <srcdir> <name> <property> <needs> <detected_by>  — copy a validated seeded change into /verif/seeded/<name>/"""
 import sys,os,shutil,json,subprocess,glob,re
 src,name,prop,needs,det=sys.argv[1:6]
+check=sys.argv[6] if len(sys.argv)>6 else prop
 dst='/verif/seeded/'+name
 os.makedirs(dst,exist_ok=True)
 for f in ['patch.diff','DEMO.txt','NOTES.txt']+[os.path.basename(x) for x in glob.glob(src+'/*_test.go')]+(['patch.original.diff'] if os.path.exists(src+'/patch.original.diff') else []):
@@ -16,8 +17,11 @@ meta={
  "validated_against_repo_commit":head,
  "validation":"tools/validate_mutant.sh in a scratch worktree of /repo: demo passes on HEAD; patch applies; `go test -vet=off -count=1 ./...` passes with the patch; demo fails with the patch",
  "validation_result":res[0] if res else out[-300:],
- "checks_run":"git -C /repo apply patch.diff; ./check <property> quick; git -C /repo reset --hard",
+ "checks_run":"tools/trym.sh: patch applied to a scratch worktree of /repo (never /repo itself), VERIF_REPO=<worktree> ./check <property> quick, worktree removed",
  "detected_by":det,
 }
+if check!=prop:
+    meta["check"]=check
+    meta["check_note"]="the change breaks a clause that is decided by the check of "+check+" (see NOTES.txt / DESIGN.md section 10); the sweep runs that check"
 json.dump(meta,open(dst+'/meta.json','w'),indent=1)
 print(name, res[0] if res else 'NO RESULT')
